@@ -9,6 +9,7 @@ THEOREMS = [
     "Lou.C04.idEngine_ok", "Lou.C04.back_lengths", "Lou.C04.back_ret0_iff",
             "Lou.ModelEngine.model_fwd_lengths", "Lou.ModelEngine.model_back_lengths",
             "Lou.ModelEngine.callFwd_eq", "Lou.ModelEngine.callBack_eq", "Lou.ModelEngine.whole_call_fwd_lengths",
+            "Lou.ModelEngine.engineFor_ok", "Lou.FwdCOK.translateC_contract",
 ]
 
 CLAIM = dict(
